@@ -109,8 +109,31 @@ def witness_npath_parent_creation(prog, fn: ast.AST) -> bool:
     i = body.index(st)
     nxt = body[i + 1:i + 3]
     prev = body[i - 1] if i else None
-    if not (len(nxt) == 2 and norm(nxt[0]) == f"{cur} = {nested}" and isinstance(nxt[1], ast.Continue)):
-        return False
+    direct = len(nxt) == 2 and norm(nxt[0]) == f"{cur} = {nested}" and isinstance(nxt[1], ast.Continue)
+    if not direct:
+        # fall-through form: the store ends the `except KeyError:` arm, and the code after the try applies the same
+        # `isinstance(<value>, AttributeSet)` check (true for the fresh set) before `current = <value>`
+        if body[i + 1:]:
+            return False
+        pm = {}
+        for n_ in ast.walk(fn):
+            for c_ in ast.iter_child_nodes(n_):
+                pm[c_] = n_
+        tr = pm.get(owner) if isinstance(owner, ast.ExceptHandler) else None
+        if not isinstance(tr, ast.Try):
+            return False
+        _o2, outer = body_containing(fn, tr)
+        if outer is None:
+            return False
+        rest = outer[outer.index(tr) + 1:]
+        ok_rest = False
+        for k_, st_ in enumerate(rest):
+            if isinstance(st_, ast.If) and norm(st_.test) == f"not isinstance({nested}, AttributeSet)" and any(isinstance(x, ast.Raise) for x in st_.body) and not st_.orelse:
+                continue
+            ok_rest = norm(st_) == f"{cur} = {nested}"
+            break
+        if not ok_rest:
+            return False
     if not (isinstance(prev, ast.Assign) and norm(prev.targets[0]) == nested and _fresh_empty_set_ctor(prev.value)):
         return False
     first = body[0]
@@ -255,6 +278,9 @@ def witness_created_parent_is_empty(prog, fn: ast.AST) -> bool:
     calls = [n for n in cfg.nodes if n.ast is not None and n.kind in ("stmt", "test") and any(
         isinstance(c, ast.Call) and callee(c) == "_assign_through_identifier" and any(al.norm(a) == f"{eb}.value" for a in c.args)
         for c in ast.walk(n.ast))]  # closure `f(ref)` or module-level `f(owner, ref, value)`
+    # … or the attempt written in place: `<ref>.value = <value>` where <ref> names `<binding>.value`
+    calls += [n for n in cfg.nodes if isinstance(n.ast, ast.Assign) and isinstance(n.ast.targets[0], ast.Attribute)
+              and n.ast.targets[0].attr == "value" and al.norm(n.ast.targets[0].value) == f"{eb}.value"]
     if not calls:
         return False
 
